@@ -112,7 +112,7 @@ theorem BInv_step {s s' : State} {t : Tid} {ch : Nat} (hB : BInv s) (h : step s 
       simp only [step, hg, hpc] at h
       split at h
       · cases h
-      case h_13 r hp =>
+      case h_14 r hp =>
         -- dqnEnd
         have h1 := hb.1
         simp only [dqnOpen, hpc, dtorPc, hp, dqnBalanced, Bool.and_eq_true, decide_eq_true_eq] at h1
